@@ -107,6 +107,233 @@ theorem C14_dated_restart_leaves_files (z : Nat → Int) (fs : FS) (c : Cfg) (st
     · simp [hn]
     · rw [hc] at hn; simp at hn
 
+/-! ### the retained sequence across append-mode restarts -/
+
+/-- in a list sorted by non-decreasing date whose dates are all `≤ today`, the entries dated `today` form a suffix -/
+theorem today_suffix (today : Int) : ∀ (l : List FileInfo), l.Pairwise (fun a b => dOf a ≤ dOf b) →
+    (∀ e ∈ l, dOf e ≤ today) → l.filter (fun e => decide (dOf e = today)) <:+ l
+  | [], _, _ => by simp
+  | x :: xs, hp, hb => by
+    have hp' := List.pairwise_cons.mp hp
+    by_cases hx : dOf x = today
+    · have hall : ∀ e ∈ x :: xs, decide (dOf e = today) = true := by
+        intro e he
+        rcases List.mem_cons.mp he with rfl | he'
+        · simpa using hx
+        · have h1 := hp'.1 e he'
+          have h2 := hb e (List.mem_cons_of_mem _ he')
+          simp only [decide_eq_true_eq]; omega
+      rw [List.filter_eq_self.mpr hall]
+      exact List.suffix_refl _
+    · simp only [List.filter_cons, hx, decide_false, Bool.false_eq_true, ↓reduceIte]
+      exact (today_suffix today xs hp'.2 (fun e he => hb e (List.mem_cons_of_mem _ he))).trans (List.suffix_cons x xs)
+
+/-- **An append-mode restart keeps a suffix of the bookkeeping**: under the restart premise the new `_created_files` is
+    the current file preceded by — DateAndTime: nothing; Date: exactly the tracked files dated today, which are the tail of
+    the old deque — and no file changes. The retained tracked sequence after the start is a suffix of the one before. -/
+theorem restart_dated_diskSeq_suffix (z : Nat → Int) (w : World) (c : Cfg) (start : Nat) (h : DatedInv z w)
+    (hop : DatedOpOK z w (.restart c start)) (ha : c.append = true) :
+    diskSeq (restart z w.fs c start) <:+ diskSeq w := by
+  obtain ⟨hsch, _, hd1, _⟩ := hop
+  obtain ⟨rest, hr⟩ := h.last
+  have hcurS := h.tracked curInfo h.cur_mem
+  obtain ⟨cc, hcc⟩ := Option.isSome_iff_exists.mp hcurS
+  have hcc' : w.fs.get curName = some cc := hcc
+  have hfs : (restart z w.fs c start).fs = w.fs := by simp [restart, ha, hcc']
+  have hsorted := h.sorted
+  rw [hr, List.pairwise_append] at hsorted
+  have hdw : diskSeq w = rest.flatMap (content w.fs) ++ content w.fs curInfo := by
+    unfold diskSeq; rw [hr]; simp
+  cases hs : c.scheme with
+  | index => exact absurd (hsch ▸ hs) h.scheme
+  | dateTime =>
+    have hcr : (restart z w.fs c start).sink.created = [curInfo] := by simp [restart, hs, recover]
+    have : diskSeq (restart z w.fs c start) = content w.fs curInfo := by
+      unfold diskSeq; rw [hcr, hfs]; simp
+    rw [this, hdw]
+    exact List.suffix_append _ _
+  | date =>
+    have hcr : (restart z w.fs c start).sink.created =
+        sortDesc (w.fs.filterMap (scanDate (civilDay z start))) ++ [curInfo] := by
+      simp [restart, ha, hs, recover]
+    have hle : sfxVal z w.sink.cfg.scheme w.sink.openTs ≤ civilDay z start := by
+      have := hd1 hs; rw [hs] at this; rw [← hsch, hs]; exact this
+    have hsome : ∀ e ∈ rest, ∃ d, e.sfx = some d := by
+      intro e he
+      exact Option.isSome_iff_exists.mp (hsorted.2.2 e he curInfo (by simp)).1
+    have hdate : rest.Pairwise (fun a b => dOf a ≤ dOf b) := by
+      refine List.Pairwise.imp_of_mem ?_ hsorted.1
+      intro a b _ hb hab
+      obtain ⟨d, hd⟩ := hsome b hb
+      rcases hab.2 with h0 | h0
+      · rw [hd] at h0; simp at h0
+      · rcases h0 with h1 | ⟨h1, _⟩ <;> omega
+    have hbound : ∀ e ∈ rest, dOf e ≤ civilDay z start := by
+      intro e he
+      obtain ⟨d, hd⟩ := hsome e he
+      have := h.bound e (by rw [hr]; exact List.mem_append_left _ he) d hd
+      simp only [dOf, hd, Option.getD_some]; omega
+    have hsuf := today_suffix (civilDay z start) rest hdate hbound
+    -- the recovered list is that filter
+    have heq : sortDesc (w.fs.filterMap (scanDate (civilDay z start))) =
+        rest.filter (fun e => decide (dOf e = civilDay z start)) := by
+      have hs1 := sortDesc_sorted _ (scanDate_distinct w.fs (civilDay z start) h.keys)
+      have hs2 : (rest.filter (fun e => decide (dOf e = civilDay z start))).Pairwise (fun a b => a.idx > b.idx) := by
+        have hp : rest.Pairwise (fun a b => dOf a = civilDay z start → dOf b = civilDay z start → a.idx > b.idx) := by
+          refine List.Pairwise.imp_of_mem ?_ hsorted.1
+          intro a b _ hb hab ha' hb'
+          obtain ⟨d, hd⟩ := hsome b hb
+          rcases hab.2 with h0 | h0
+          · rw [hd] at h0; simp at h0
+          · rcases h0 with h1 | ⟨_, h2⟩
+            · omega
+            · exact h2
+        refine List.Pairwise.imp_of_mem ?_ (hp.sublist List.filter_sublist)
+        intro a b ha' hb' hab
+        exact hab (by simpa using (List.mem_filter.mp ha').2) (by simpa using (List.mem_filter.mp hb').2)
+      have nd : ∀ {l : List FileInfo}, l.Pairwise (fun a b => a.idx > b.idx) → l.Nodup := by
+        intro l hl
+        exact hl.imp (fun {a b} hab heq => by subst heq; omega)
+      apply List.Perm.eq_of_pairwise (le := fun a b => a.idx > b.idx) _ hs1 hs2
+      · rw [List.perm_ext_iff_of_nodup (nd hs1) (nd hs2)]
+        intro e
+        rw [mem_sortDesc, mem_scanDate, List.mem_filter]
+        constructor
+        · rintro ⟨h1, h2⟩
+          have h2' : (w.fs.get (.file (some (civilDay z start)) e.idx)).isSome := by
+            simpa [FileInfo.name, h1] using h2
+          rcases h.ghosts _ _ h2' with hm | hm
+          · have he : e = ⟨some (civilDay z start), e.idx⟩ := by cases e; simp_all
+            rw [← he, hr] at hm
+            rcases List.mem_append.mp hm with hm | hm
+            · exact ⟨hm, by simp [dOf, h1]⟩
+            · simp only [List.mem_singleton] at hm; rw [hm] at h1; simp [curInfo] at h1
+          · omega
+        · rintro ⟨he, hd⟩
+          obtain ⟨d, hd'⟩ := hsome e he
+          have : d = civilDay z start := by simpa [dOf, hd'] using hd
+          subst this
+          exact ⟨hd', h.tracked e (by rw [hr]; exact List.mem_append_left _ he)⟩
+      · intro a b _ _ h1 h2; omega
+    obtain ⟨pre, hpre⟩ := hsuf
+    have : diskSeq (restart z w.fs c start) =
+        (rest.filter (fun e => decide (dOf e = civilDay z start))).flatMap (content w.fs) ++ content w.fs curInfo := by
+      unfold diskSeq; rw [hcr, hfs, heq]; simp
+    rw [this, hdw]
+    refine ⟨pre.flatMap (content w.fs), ?_⟩
+    rw [← List.append_assoc, ← List.flatMap_append, hpre]
+
+/-- every restart of the history is in append mode -/
+def AppendOnly : List Op → Prop
+  | [] => True
+  | .write _ _ :: ops => AppendOnly ops
+  | .restart c _ :: ops => c.append = true ∧ AppendOnly ops
+
+/-- **Order and completeness, dated schemes, every history** (premise `DatedHistOK`, append-mode restarts with any other
+    settings). The tracked files read oldest → newest (which by `DatedInv` is the order of the names) give the sequence on
+    disk at the beginning followed by every statement written, minus a prefix. What leaves at the front is (a) whole files
+    deleted as the oldest tracked one by a rotation with overwriting on and the backup limit reached
+    (`write_dated_diskSeq`), or (b) at a restart, whole files that leave the bookkeeping but stay on disk untouched
+    (`C14_dated_restart_leaves_files`, `C14_dated_untracked_untouched`) — the recovery gap F15, which is why the backup
+    bound fails across restarts while nothing is lost to the reader. -/
+theorem C14_dated_sequence (P : Params) (z : Nat → Int) : ∀ (ops : List Op) (w : World), DatedInv z w →
+    DatedHistOK P z w ops → AppendOnly ops → diskSeq (run P z w ops) <:+ diskSeq w ++ written ops
+  | [], w, _, _, _ => by simp [run, written]
+  | op :: ops, w, h, hok, ha => by
+    have hinv := step_dated_inv P z w op h hok.1
+    cases op with
+    | write st ts =>
+      have ih := C14_dated_sequence P z ops _ hinv hok.2 ha
+      simp only [run, written, step] at ih ⊢
+      obtain ⟨n, he, _⟩ := write_dated_diskSeq P z w st ts h hok.1
+      have h1 : diskSeq (write P z w st ts) ++ written ops <:+ diskSeq w ++ st :: written ops := by
+        refine ⟨(w.sink.created.take n).flatMap (content w.fs), ?_⟩
+        rw [← List.append_assoc, ← he]; simp
+      exact ih.trans h1
+    | restart c start =>
+      have ih := C14_dated_sequence P z ops _ hinv hok.2 ha.2
+      simp only [run, written, step] at ih ⊢
+      obtain ⟨pre, hpre⟩ := restart_dated_diskSeq_suffix z w c start h hok.1 ha.1
+      refine ih.trans ⟨pre, ?_⟩
+      rw [← List.append_assoc, hpre]
+
+/-! ### files outside the bookkeeping are never touched (the exact shape of the recovery gap F15) -/
+
+theorem rotate_dated_untracked (P : Params) (z : Nat → Int) (w : World) (ts : Nat) (h : DatedInv z w) (d : Int) (k : Nat)
+    (c : List Stmt) (hc : w.fs.get (.file (some d) k) = some c) (hu : (⟨some d, k⟩ : FileInfo) ∉ w.sink.created) :
+    (rotate P z w ts).fs.get (.file (some d) k) = some c ∧ (⟨some d, k⟩ : FileInfo) ∉ (rotate P z w ts).sink.created := by
+  by_cases hr : rotates w
+  · obtain ⟨hns, cont, hcur, hb⟩ := hr
+    have hlt : d < sfxVal z w.sink.cfg.scheme w.sink.openTs := by
+      rcases h.ghosts d k (by rw [hc]; rfl) with h1 | h1
+      · exact absurd h1 hu
+      · exact h1
+    have hsfx := newSuffix_dated z w.sink.cfg.scheme w.sink.openTs h.scheme
+    -- no entry is renamed to (or stays at) this name
+    have hnt : ∀ e ∈ w.sink.created,
+        entryAfter w.sink.cfg.scheme (some (sfxVal z w.sink.cfg.scheme w.sink.openTs)) e ≠ ⟨some d, k⟩ := by
+      intro e he heq
+      obtain ⟨d', hd', hor⟩ := entryAfter_dated_sfx w.sink.cfg.scheme (sfxVal z w.sink.cfg.scheme w.sink.openTs) e h.scheme
+      rw [heq] at hd'
+      have hdd : d = d' := by simpa using hd'
+      rcases hor with h1 | h1
+      · omega
+      · -- the entry keeps its suffix `d ≠ S`: it is unchanged, hence tracked
+        have hne : d' ≠ sfxVal z w.sink.cfg.scheme w.sink.openTs := by omega
+        rw [entryAfter_other _ _ d' e h.scheme h1 hne] at heq
+        exact hu (heq ▸ he)
+    have hp := h.pairs
+    obtain ⟨_, hB⟩ := chain_generic w.sink.cfg.scheme (some (sfxVal z w.sink.cfg.scheme w.sink.openTs)) w.fs w.sink.created
+      (List.pairwise_map.mpr (hp.imp (fun hx => hx.1)))
+      (List.pairwise_map.mpr (hp.imp (fun hx => hx.2.1)))
+      (hp.imp (fun hx => hx.2.2.1)) h.tracked
+    have hname : ∀ e : FileInfo, e.name = Name.file (some d) k → e = ⟨some d, k⟩ := by
+      intro e he; cases e; simp only [FileInfo.name, Name.file.injEq] at he; rw [he.1, he.2]
+    have h1 := hB (.file (some d) k) (fun e he heq => hnt e he (hname _ heq.symm))
+    have hnsrc : Name.file (some d) k ∉ w.sink.created.map FileInfo.name := by
+      intro hm
+      obtain ⟨e, he, hen⟩ := List.mem_map.mp hm
+      exact hu (hname e hen ▸ he)
+    simp only [hnsrc, ↓reduceIte] at h1
+    rw [rotate_eq P z w ts cont hns hcur hb, hsfx]
+    dsimp only
+    constructor
+    · rw [FS.get_put]
+      have hne : Name.file (some d) k ≠ curName := by simp [curName]
+      simp only [hne, ↓reduceIte, delAll_get]
+      have hnd : Name.file (some d) k ∉ (List.take
+          (excess P.deletesAllExcess (w.sink.created.map (entryAfter w.sink.cfg.scheme (some (sfxVal z w.sink.cfg.scheme w.sink.openTs)))).length w.sink.cfg.maxBackup)
+          (w.sink.created.map (entryAfter w.sink.cfg.scheme (some (sfxVal z w.sink.cfg.scheme w.sink.openTs))))).map FileInfo.name := by
+        intro hm
+        obtain ⟨e', he', hen⟩ := List.mem_map.mp hm
+        obtain ⟨e, he, rfl⟩ := List.mem_map.mp (List.mem_of_mem_take he')
+        exact hnt e he (hname _ hen)
+      simp only [hnd, ↓reduceIte]
+      rw [h1, hc]
+    · intro hm
+      rcases List.mem_append.mp hm with hm | hm
+      · obtain ⟨e, he, heq⟩ := List.mem_map.mp (List.mem_of_mem_drop hm)
+        exact hnt e he heq
+      · simp [curInfo] at hm
+  · rw [rotate_of_not_rotates' P z w ts (h.tracked curInfo h.cur_mem) hr]; exact ⟨hc, hu⟩
+
+/-- **A dated file the sink does not track is never touched by a write** (dated schemes, write premise): it keeps its
+    content — it is no rename source (untracked), no rename target (targets carry the open file's suffix, untracked files
+    are strictly older: `DatedInv.ghosts`), not deleted (only tracked files are) — and it stays untracked. Together with
+    `C14_dated_restart_leaves_files` (a start in append mode changes no file): what leaves `_created_files` at a restart
+    stays on disk for ever — never lost, never counted against `max_backup_files`, never deleted (F15). -/
+theorem C14_dated_untracked_untouched (P : Params) (z : Nat → Int) (w : World) (st : Stmt) (ts : Nat) (h : DatedInv z w)
+    (d : Int) (k : Nat) (c : List Stmt) (hc : w.fs.get (.file (some d) k) = some c)
+    (hu : (⟨some d, k⟩ : FileInfo) ∉ w.sink.created) :
+    (write P z w st ts).fs.get (.file (some d) k) = some c ∧ (⟨some d, k⟩ : FileInfo) ∉ (write P z w st ts).sink.created := by
+  have hne : Name.file (some d) k ≠ curName := by simp [curName]
+  show ((prepare P z w st.size ts).fs.put curName _).get _ = _ ∧ _ ∉ (prepare P z w st.size ts).sink.created
+  rw [FS.get_put]
+  simp only [hne, ↓reduceIte]
+  rcases prepare_cases P z w st.size ts with hs | hs
+  · rw [hs.fs, hs.created]; exact ⟨hc, hu⟩
+  · rw [hs.fs, hs.created]; exact rotate_dated_untracked P z w ts h d k c hc hu
+
 /-! ### the excluded classes, by `decide` -/
 
 /-- **Same-second restart (DateAndTime), excluded by the strict `<`.** Overwriting off, no backup limit: run 1 opens a file
